@@ -231,12 +231,21 @@ class Reg(object):
         return _same(self.gaps, self.gap0)
 
 
+def _padded(dtype):
+    """longdouble / clongdouble: 10 significant bytes + padding per component; the padding is
+    not part of the value, so these are compared by value (nan == nan, sign of zero included)
+    instead of byte-wise."""
+    return dtype.kind in 'fc' and dtype.itemsize // (2 if dtype.kind == 'c' else 1) > 8
+
+
 def _bits(a):
     """Integer views of an array (any strides) so that equality is bit-wise."""
     k = a.dtype.kind
     if k == 'c':
         return _bits(a.real) + _bits(a.imag)
     if k == 'f':
+        if _padded(a.dtype):
+            return [a, np.signbit(a)]
         return [a.view('u%d' % a.dtype.itemsize)]
     return [a]
 
@@ -244,7 +253,7 @@ def _bits(a):
 def _snap(arrs):
     out = []
     for a in arrs:
-        if a.size < 4096:
+        if a.size < 4096 and not _padded(a.dtype):
             out.append(a.tobytes())
         else:
             out.append([b.copy(order='K') for b in _bits(a)])
@@ -258,7 +267,7 @@ def _same(arrs, snap):
                 return False
         else:
             for b, c in zip(_bits(a), s):
-                if not np.array_equal(b, c):
+                if not np.array_equal(b, c, equal_nan=(b.dtype.kind == 'f')):
                     return False
     return True
 
@@ -1421,6 +1430,18 @@ DT_Q = ['float64', 'float32', 'complex128', 'int64']
 DT_T = ['float64', 'float32', 'complex128', 'int64', 'complex64', 'int32', 'int8', 'uint8',
         'float16']
 
+# Dtype sweep (both tiers, for the dtypes not already in DT_Q / DT_T): every other scalar dtype
+# class the library can build ("dtype: ... in any way the numpy.dtype function understands",
+# NumpyTensorSpace.available_dtypes()), in particular the float / complex dtypes on BOTH sides of
+# the table of BLAS-capable dtypes (inside: complex64; outside: half, extended precision
+# longdouble / clongdouble, non-native byte order), each in every size regime and with
+# contiguous (C / F) as well as strided registers, so that the dtype arm of the dispatch
+# "BLAS or fallback" is toggled together with the size and contiguity arms.
+DT_X_FLOAT = ['longdouble', 'clongdouble', 'float16', 'complex64', '>f8']
+DT_X_INT = ['int32', 'int16', 'int8', 'uint8', 'uint16', 'uint32', 'uint64', '>i4']
+X_SHAPES_FLOAT = [[3], [100], [50000], [250, 200]]
+X_SHAPES_INT = [[3], [100], [50000]]
+
 RN = lambda n, dt='float64': ['T', [n], dt]      # noqa
 
 PSPACES_Q = [
@@ -1444,6 +1465,12 @@ PSPACES_T = PSPACES_Q + [
 DISCR_Q = [['U', [3], 'float64'], ['U', [100], 'float64'], ['U', [10, 10], 'float64'],
            ['U', [2, 5, 10], 'float64'], ['U', [50000], 'float64'], ['U', [3], 'complex128'],
            ['U', [101], 'complex128'], ['U', [10, 10], 'float32']]
+# discretized / product spaces over the dtypes of the sweep (large: the leaves reach the same
+# size / dtype / contiguity dispatch as plain tensor spaces)
+DISCR_X = [['U', [250, 200], 'longdouble'], ['U', [50000], 'clongdouble'],
+           ['U', [10, 10], 'float16'], ['U', [100], 'longdouble']]
+PSPACES_X = [['P', RN(50000, 'longdouble'), RN(3, 'longdouble')],
+             ['W', RN(3, 'clongdouble'), 2], ['W', RN(3, 'float16'), 2]]
 DISCR_T = DISCR_Q + [['U', [99], 'float64'], ['U', [250, 200], 'float64'],
                      ['U', [250, 200], 'complex128'], ['U', [50001], 'float32'],
                      ['U', [1], 'float64'], ['U', [10, 10], 'complex64']]
@@ -1528,8 +1555,12 @@ def configs(tier):
     shapes = [[n] for n in one_d] + TWO_D + (THREE_D_T if thorough else THREE_D)
     shapes.sort(key=lambda s: (int(np.prod(s)), len(s)))
     tens = [['T', sh, dt] for dt in dts for sh in shapes]
-    discr = DISCR_T if thorough else DISCR_Q
-    psp = PSPACES_T if thorough else PSPACES_Q
+    # dtype sweep: the remaining dtype classes, one size per regime (+ a large 2-d shape for
+    # the float-like ones, where C / F contiguity decides the ravel order of the BLAS branch)
+    tens += [['T', sh, dt] for dt in DT_X_FLOAT if dt not in dts for sh in X_SHAPES_FLOAT]
+    tens += [['T', sh, dt] for dt in DT_X_INT if dt not in dts for sh in X_SHAPES_INT]
+    discr = (DISCR_T if thorough else DISCR_Q) + DISCR_X
+    psp = (PSPACES_T if thorough else PSPACES_Q) + PSPACES_X
 
     def lin_combos(spec):
         nd, size = _spec_ndim(spec), _spec_size(spec)
@@ -1599,6 +1630,10 @@ def configs(tier):
         for sh in ([3], [99], [100], [101], [50000]):
             osp.append((['T', sh, dt], 'C', 'C'))
         osp.append((['T', [10, 10], dt], 'F', 'C'))
+    for dt in DT_X_FLOAT:
+        if dt not in dts:
+            for sh in ([100], [50000]):
+                osp.append((['T', sh, dt], 'C', 'C'))
     osp += [(['T', [10, 10], 'float64'], 'C', 'F'), (['T', [250, 200], 'float64'], 'C', 'C'),
             (['T', [250, 200], 'float64'], 'F', 'F'), (['T', [2, 5, 10], 'float64'], 'C', 'C'),
             (['U', [100], 'float64'], 'C', 'C'), (['U', [50000], 'float64'], 'C', 'C'),
@@ -1623,7 +1658,9 @@ def configs(tier):
     rsp = [(RN(3), ['C', 'C', 'C']), (RN(100), ['C', 'C', 'C']), (RN(50000), ['C', 'C', 'C']),
            (RN(50000), ['C', 'C', 'S0']), (RN(100, 'float32'), ['C', 'C', 'C']),
            (RN(101, 'complex128'), ['C', 'C', 'C']), (['U', [10, 10], 'float64'], ['F', 'C', 'C']),
-           (['P', RN(120), RN(3)], ['C', 'C', 'C'])]
+           (['P', RN(120), RN(3)], ['C', 'C', 'C']),
+           (RN(100, 'longdouble'), ['C', 'C', 'C']), (RN(50000, 'longdouble'), ['C', 'C', 'C']),
+           (RN(50000, 'clongdouble'), ['C', 'C', 'C']), (RN(50000, 'complex64'), ['C', 'C', 'C'])]
     if thorough:
         rsp += [(RN(99), ['C', 'C', 'C']), (RN(49999), ['C', 'C', 'C']),
                 (RN(50000, 'complex128'), ['C', 'C', 'C']),
